@@ -13,11 +13,10 @@ UNIT = Unit(
 PB = "src/progress_bar.rs"
 UNIT.pinned = [(PB, "ProgressBar", n) for n in
                ["new", "no_length", "hidden", "with_draw_target", "with_style", "with_position", "with_finish", "with_elapsed", "new_spinner",
-                "set_style", "suspend", "update", "index", "state",
+                "suspend", "update", "index", "state",
                 "enable_steady_tick", "disable_steady_tick", "stop_and_replace_ticker"]] + [
     ("src/state.rs", "BarState", "new"), ("src/state.rs", "BarState", "update"), ("src/state.rs", "ProgressState", "new"),
     ("src/state.rs", "AtomicPosition", "new"),
-    ("src/draw_target.rs", "ProgressDrawTarget", "term_like"), ("src/draw_target.rs", "ProgressDrawTarget", "term_like_with_hz"),
     ("src/draw_target.rs", "ProgressDrawTarget", "term"),
     ("src/draw_target.rs", "ProgressDrawTarget", "stdout"), ("src/draw_target.rs", "ProgressDrawTarget", "stderr"),
     ("src/draw_target.rs", "ProgressDrawTarget", "stdout_with_hz"), ("src/draw_target.rs", "ProgressDrawTarget", "stderr_with_hz"),
